@@ -12,8 +12,6 @@ def helperNames : List String :=
 theorem helpers_safe : ∀ h ∈ helperNames,
     (Gen.Derive.binderPrefix.toList.isPrefixOf h.toList) = false ∧ h ≠ Gen.Derive.selfParam := by decide
 
-def digitsVal (cs : List Char) : Nat := cs.foldl (fun a c => 10 * a + (c.toNat - 48)) 0
-
 theorem digitChar_val : ∀ k : Fin 10, (digitChar k).toNat - 48 = k.val := by decide
 
 theorem digitsVal_natDigits (n : Nat) : digitsVal (natDigits n) = n := by
